@@ -33,7 +33,7 @@ ASSUMPTIONS = [
     "the v2 universe of pbt/models_v2.py samples 'any node model'; floats are not generated (not in C01's quantifier)",
     "blake2b collisions at digest size >= 8 bytes do not occur by chance",
 ]
-FLOORS = {"pairs:NONTRIVIAL": 0.5, "pairs:expect-equal": 0.15, "pairs:expect-different": 0.3}
+FLOORS = {"pairs:NONTRIVIAL": 0.35, "pairs:expect-equal": 0.15, "pairs:expect-different": 0.3}
 
 MUTATIONS = [
     "swap_tuple", "frame_shift", "sibling_class", "move_ka_kb", "last_char", "type_only", "fs_permute",
